@@ -137,6 +137,7 @@ class EEA:
         self.connected_typestate = True
         self.assumptions_used: set = set()
         self._cur_schema_keys = None
+        self.caught_log: dict = {}  # (exc, site) -> description of the handler that absorbs/converts it
 
     # ------------------------------------------------------------------ util
 
@@ -839,6 +840,7 @@ class EEA:
             for (exc, site), path in remaining.items():
                 if any(self.issub(exc, c) for c in classes):
                     got[(exc, site)] = path
+                    self.caught_log.setdefault((exc, site), f"except {', '.join(short_exc(c) for c in classes)} at {fr.module.relpath}:{h.lineno} in {fr.func.qualname}")
                 else:
                     part = [c for c in classes if self.issub(c, exc)]
                     if part:
